@@ -321,10 +321,14 @@ func init() {
 	}
 	// bufio.Reader over a ghost stream: Peek does not consume, Discard does; Read may return fewer bytes than asked
 	models["(*bufio.Reader).Peek"] = func(e *Exec, st *State, fr *Frame, fn *ssa.Function, args []Value, pos token.Pos) []Outcome {
-		e.note("trusted: bufio.Reader.Peek/Discard/Read contracts over ghost byte streams (requests are assumed to fit the reader's buffer)")
+		e.note("trusted: bufio.Reader.Peek/Discard/Read contracts over ghost byte streams (a Peek larger than the reader's buffer is an obligation: safe.peek-fits)")
 		ref := streamRef(args[0])
 		want := args[1].(*Term)
 		e.oblige(st, fr, "safe.peek-negative", pos, BVSle(BVConst(0, 64), want))
+		// bufio.ErrBufferFull: the request must fit the reader's buffer (ghost_rd_bufsize, at least 16 for every reader)
+		bs := e.ghGet(st, "rd.bufsize", BV(64), ref)
+		st.AssumeFact(And(BVUle(BVConst(16, 64), bs), BVUle(bs, BVConst(maxLen, 64))))
+		e.oblige(st, fr, "safe.peek-fits", pos, BVSle(want, bs))
 		r := e.rd(st, ref)
 		avail := BVSub(r.n, r.pos)
 		ok := BVUle(want, avail)
@@ -336,6 +340,13 @@ func init() {
 		term := &IfaceV{Tid: r.errT, Ref: r.errR}
 		e.ioerrRecord(st, Not(ok), term)
 		return one(st, sl, &IfaceV{Tid: Ite(ok, IntConst(0), term.Tid), Ref: Ite(ok, IntConst(0), term.Ref)})
+	}
+	models["bufio.NewReaderSize"] = func(e *Exec, st *State, fr *Frame, fn *ssa.Function, args []Value, pos token.Pos) []Outcome {
+		// a new reader with a buffer of max(size, 16) bytes (bufio's minimum); its stream is its own
+		size := args[1].(*Term)
+		r := st.NewRef()
+		e.ghSet(st, "rd.bufsize", BV(64), r, Ite(BVSlt(size, BVConst(16, 64)), BVConst(16, 64), size))
+		return one(st, &PtrV{Kind: PObj, Base: r, Root: fn.Signature.Results().At(0).Type().(*types.Pointer).Elem()})
 	}
 	models["(*bufio.Reader).Discard"] = func(e *Exec, st *State, fr *Frame, fn *ssa.Function, args []Value, pos token.Pos) []Outcome {
 		ref := streamRef(args[0])
@@ -403,6 +414,11 @@ func (e *Exec) ghostPrimitive(st *State, fr *Frame, fn *ssa.Function, args []Val
 		return one(st, &IfaceV{Tid: r.errT, Ref: r.errR}), true
 	case "ghost_wr_len":
 		return one(st, e.wrF(s, e.wrFamily(args[0]), streamRef(args[0])).n), true
+	case "ghost_log_out": // the writer a *log.Logger made by log.New writes to
+		p := args[0].(*PtrV)
+		return one(st, &IfaceV{Tid: e.ghGet(s, "log.out.tid", SInt, p.Base), Ref: e.ghGet(s, "log.out.ref", SInt, p.Base)}), true
+	case "ghost_rd_bufsize":
+		return one(st, e.ghGet(s, "rd.bufsize", BV(64), streamRef(args[0]))), true
 	case "ghost_wr_flushed":
 		return one(st, e.ghGet(s, e.wrFamily(args[0])+".flushed", BV(64), streamRef(args[0]))), true
 	case "ghost_wr_limit":
@@ -628,6 +644,15 @@ func init() {
 			}
 		}
 		return one(st)
+	}
+	// log.New: a fresh logger that remembers its writer (ghost_log_out)
+	models["log.New"] = func(e *Exec, st *State, fr *Frame, fn *ssa.Function, args []Value, pos token.Pos) []Outcome {
+		e.note("trusted: log.New returns a new logger writing to the writer it was given")
+		out := args[0].(*IfaceV)
+		r := st.NewRef()
+		e.ghSet(st, "log.out.tid", SInt, r, out.Tid)
+		e.ghSet(st, "log.out.ref", SInt, r, out.Ref)
+		return one(st, &PtrV{Kind: PObj, Base: r, Root: fn.Signature.Results().At(0).Type().(*types.Pointer).Elem()})
 	}
 	models["(*log.Logger).Println"] = emit
 	models["(*log.Logger).Printf"] = emit
